@@ -63,6 +63,8 @@ def _field_kwargs(pa, fs, polars=False):
         kw["report_duplicates"] = fs.get("report_duplicates", "all")
     if fs.get("default") is not None:
         kw["default"] = _val(fs["dtype"], fs["default"])
+    if fs.get("col_drop") and not polars:
+        kw["drop_invalid_rows"] = True       # Column-level option (frame columns only)
     if fs.get("parser") and not polars:
         from .parse import PARSERS
         kw["parsers"] = [pa.Parser(PARSERS[fs["dtype"]][fs["parser"]])]
